@@ -6,6 +6,7 @@
 import Chrono.Proofs.TzEncL
 import Chrono.Proofs.TzSamples
 import Chrono.Proofs.TzValidL
+import Chrono.Proofs.TzLookupPL
 
 namespace Chrono.Props.C16
 open Chrono Chrono.M.Tz Chrono.Spec.Tz Chrono.Spec.Tz.Gr Chrono.Proofs.Tz Chrono.Proofs.TzValid
@@ -295,6 +296,81 @@ theorem parsed_zone_join (bytes : List Nat) (z : Zone) (h : parse bytes = .ok z)
     (hb : -36028797018963968 ≤ last.time ∧ last.time ≤ 36028797018963968) :
     Spec.Zone.ruleOff rule last.time = M.TzL.typeAt z last.idx :=
   parsed_zone_join' bytes z h hl rule last hrule hlast hr hb
+
+/-! ### an accepted zone answers every offset query
+
+`Zone.find_local_time_type_P` / `Zone.find_local_time_type_from_local_P` (Model/TzLookupP.lean) are
+three-valued models of `TimeZoneRef::find_local_time_type` / `find_local_time_type_from_local` and
+everything below them: every slice index can `panic`, every unchecked `i64` step is overflow-checked,
+`checked_add` gives `Err`, and the two `transition time + offset` sums saturate (the code after the
+repair of finding #10).  The wall-clock query is a `NaiveDateTime`: `year` is its calendar year (an
+`i32`; the theorems allow ANY `i32`), `ℓ` its timestamp. -/
+
+/-- lookup by instant: never a panic, for every zone `parse` accepts and EVERY instant (all of
+`i64`, and beyond) -/
+theorem lookup_instant_total (bytes : List Nat) (z : Zone) (h : parse bytes = .ok z) (t : Int) :
+    z.find_local_time_type_P t ≠ .panic := by
+  rw [find_P_val z (parsed_lookupSafe bytes z h) t]
+  cases z.find_local_time_type t <;> simp [toP]
+
+/-- lookup by wall clock: never a panic — in fact always `Ok` — for every zone `parse` accepts,
+every `i32` year and EVERY timestamp -/
+theorem lookup_local_total (bytes : List Nat) (z : Zone) (h : parse bytes = .ok z) (year : Int)
+    (hy : I32r year) (ℓ : Int) :
+    z.find_local_time_type_from_local_P year ℓ ≠ .panic
+      ∧ ∃ m, z.find_local_time_type_from_local_P year ℓ = .ok m := by
+  rw [find_local_P_val z (parsed_lookupSafe bytes z h) year hy ℓ]
+  exact ⟨by simp, _, rfl⟩
+
+/-- the three-valued lookup by instant IS property C05's model of the same function (`Option`-valued;
+proved there against the specification of a zone): same value, `Err` for `Err` -/
+theorem lookup_instant_is_c05 (bytes : List Nat) (z : Zone) (h : parse bytes = .ok z) (t : Int) :
+    z.find_local_time_type_P t = toP (z.find_local_time_type t) :=
+  find_P_val z (parsed_lookupSafe bytes z h) t
+
+/-- the three-valued lookup by wall clock IS property C05's model of the same function, the year
+being that of the wall-clock value (`naiveYear`, an `i32` for every `ℓ`) -/
+theorem lookup_local_is_c05 (bytes : List Nat) (z : Zone) (h : parse bytes = .ok z) (ℓ : Int) :
+    z.find_local_time_type_from_local_P (M.TzL.naiveYear ℓ) ℓ = .ok (z.find_local_time_type_from_local ℓ) := by
+  rw [find_local_P_val z (parsed_lookupSafe bytes z h) _ (naiveYear_i32 ℓ) ℓ, fromLocalWithYear_naive]
+
+/-- the same for a zone built from a `TZ` value that is a rule text (`TimeZone::from_posix_tz`: no
+transitions, the rule's own types): both lookups never panic -/
+theorem lookup_tz_string_total (text : List Nat) (ext : Bool) (r : Rule) (h : from_tz_string text ext = .ok r)
+    (t : Int) (year : Int) (hy : I32r year) (ℓ : Int) :
+    (zoneOfRule r).find_local_time_type_P t ≠ .panic
+      ∧ (zoneOfRule r).find_local_time_type_from_local_P year ℓ ≠ .panic := by
+  have hs := zoneOfRule_lookupSafe r (rule_accepted_is_valid text ext r h)
+  rw [find_P_val _ hs t, find_local_P_val _ hs year hy ℓ]
+  refine ⟨?_, by simp⟩
+  cases (zoneOfRule r).find_local_time_type t <;> simp [toP]
+
+/-- non-vacuity, on the file of finding #10 (transitions at `0` and `i64::MAX − 5`, the latter
+switching to UTC+2): it is accepted; `transition time + offset` does not fit `i64`, so the two sums
+of the wall-clock loop saturate; both lookups answer at the extremes of `i64` -/
+example :
+    parse (encodeTzif sampleF10) = .ok (absBlock sampleF10.v2 none)
+      ∧ ¬ I64r (9223372036854775802 + 7200)
+      ∧ (absBlock sampleF10.v2 none).find_local_time_type_from_local_P 2020 1577836800
+          = .ok (.single ⟨0, false, some (asc "UTC")⟩)
+      ∧ (absBlock sampleF10.v2 none).find_local_time_type_from_local_P 262142 9223372036854775807
+          = .ok (.single ⟨7200, true, some (asc "XDT")⟩)
+      ∧ (absBlock sampleF10.v2 none).find_local_time_type_P 9223372036854775807
+          = .ok ⟨7200, true, some (asc "XDT")⟩
+      ∧ (absBlock sampleF10.v2 none).find_local_time_type_P (-9223372036854775808)
+          = .ok ⟨0, false, some (asc "UTC")⟩ := by
+  refine ⟨by decide +kernel, by decide, by decide +kernel, by decide +kernel, by decide +kernel,
+    by decide +kernel⟩
+
+/-- non-vacuity: on `sampleV2` (New York's rule after the last transition) the instant lookup errs
+exactly where the rule's year arithmetic leaves `i32`, and answers elsewhere -/
+example :
+    (absBlock sampleV2.v2 (some sampleRule2)).find_local_time_type_P 9223372036854775807 = .err
+      ∧ (absBlock sampleV2.v2 (some sampleRule2)).find_local_time_type_P 1720000000
+          = .ok ⟨-14400, true, some (asc "EDT")⟩
+      ∧ (absBlock sampleV2.v2 (some sampleRule2)).find_local_time_type_from_local_P 2024 1710037800
+          = .ok .none := by
+  refine ⟨by decide +kernel, by decide +kernel, by decide +kernel⟩
 
 /-- non-vacuity (kernel evaluation): three concrete written files are read back exactly — v1 with
 leap seconds and indicators, v2 with a POSIX footer consistent with its last transition, v3 with an
